@@ -58,18 +58,21 @@ pub fn property() -> Property {
                Non-trivial = some query has an exact distance tie at rank k, or a stored point exactly on the radius (reduced distance bit-equal to the \
                reduced radius), or leaf size < n/4 (the trees really branch); distinct = distinct canonical JSON of the case",
         assumptions: vec![
-            "coordinates are finite with |x| <= 1e6 (NaN/infinite input is documented as unspecified); batches are standard-layout (KdTree documents a panic otherwise); Lp exponents >= 1 (triangle inequality is a documented precondition)".into(),
+            "coordinates are finite with |x| <= 1e6 (NaN/infinite input is documented as unspecified); batch layouts: row-major, column-major owned, transposed view, every-second-row view, reversed-rows view; query views contiguous or strided: every answer must be right; the only accepted panic is KdTree's documented \"views should be contiguous\" when a stored row or the query really is not contiguous (LinearSearch and BallTree must answer for every layout); Lp exponents >= 1 (triangle inequality is a documented precondition)".into(),
             "reference = linear scan with the crate's own Distance::rdistance(query, row) in the element type; comparisons on these values are exact".into(),
             format!("k-nearest: as sorted lists the returned distances may exceed the true ones by {} eps (relative); for BallTree, and for KdTree under Lp (box bound through powf), additionally by {} (dim+8) eps M absolute, M = largest query-to-point distance (rounding of the sphere bound distance(q,centre) - radius)", oracle::BAND_EPS, oracle::GEO_EPS),
             format!("range: a point must be present if rd < r'(1 - {0} eps) (BallTree / KdTree-Lp: and distance < radius - the allowance above), must be absent if rd > r'(1 + {0} eps); rd == r' bit-for-bit: free but all three kinds must choose alike; other points in the band are free", oracle::BAND_EPS),
             format!("Distance functions against formulas evaluated in f64: |a-b| <= {} eps max(|a|,|b|) + min_positive; conversions round-trip within {} eps; order preservation is exact", oracle::FORMULA_EPS, oracle::BAND_EPS),
             "exact geometry: when the reduced distance of a point equals the real number (checked with integer arithmetic on coordinates that are multiples of 2^-20; L1/L2/Linf) no band and no allowance applies to it: rd < r' means the point IS strictly inside (r' is the nearest float to the real reduced radius and rd is a float), so every kind must return it; rd > r' must be absent; k-nearest distances must then be equal, not close".into(),
+            "entry points: every case builds the three kinds through one of {CommonNearestNeighbour enum, unit structs LinearSearch/KdTree/BallTree, direct constructors *Index::new, enum from_batch, struct from_batch}; a malformed build (0 columns, or leaf size 0 where the entry point takes a leaf size) is tried through all of them and must be Err through each".into(),
             "malformed input (0 columns, leaf size 0, query length != dim) must give Err from build / both query kinds; a panic or an answer is a failure".into(),
         ],
         subs: vec![
             prop_sub("indices", 100000, 1200000, index_strategy, check_case).chunks(16).require(&[
                 "pts_lattice", "pts_all_equal", "pts_duplicates", "n_0", "n_1", "k_0", "k_gt_n", "tie_at_rank_k",
                 "point_exactly_on_radius", "leaf_lt_quarter_n", "elem_f32", "metric_lp", "radius_zero",
+                "layout_col_major_owned", "layout_transposed_view", "layout_strided_rows", "layout_reversed_rows", "q_strided_view",
+                "entry_enum", "entry_struct", "entry_direct", "entry_enum_from_batch", "entry_struct_from_batch",
             ]),
             enum_sub("small_exhaustive", |t: Tier| gen::small_exhaustive(t == Tier::Thorough), check_case).chunks(8),
             prop_sub("malformed", 6000, 60000, |_t: Tier| gen::case_strategy(12, Malformed::Always), check_case)
